@@ -738,6 +738,7 @@ func (obj *SparseFloat32VectorJointIterator) Ok() bool {
          !(obj.s2 == nil || obj.s2.GetFloat32() == float32(0))
 }
 func (obj *SparseFloat32VectorJointIterator) Next() {
+next:
   ok1 := obj.it1.Ok()
   ok2 := obj.it2.Ok()
   obj.s1.ptr = nil
@@ -756,6 +757,8 @@ func (obj *SparseFloat32VectorJointIterator) Next() {
       obj.s2 = obj.it2.GetConst()
     }
   }
+  // true if at least one iterator is advanced below
+  advanced := obj.s1.ptr != nil || obj.s2 != nil
   if obj.s1.ptr != nil {
     obj.it1.Next()
   }
@@ -763,6 +766,11 @@ func (obj *SparseFloat32VectorJointIterator) Next() {
     obj.it2.Next()
   } else {
     obj.s2 = ConstFloat32(0.0)
+  }
+  // skip positions where all elements are zero, stop only when
+  // all iterators are exhausted
+  if !obj.Ok() && advanced {
+    goto next
   }
 }
 func (obj *SparseFloat32VectorJointIterator) Get() (Scalar, ConstScalar) {
@@ -817,6 +825,7 @@ func (obj *SparseFloat32VectorJoint3Iterator) Ok() bool {
          !(obj.s3 == nil || obj.s3.GetFloat32() == float32(0))
 }
 func (obj *SparseFloat32VectorJoint3Iterator) Next() {
+next:
   ok1 := obj.it1.Ok()
   ok2 := obj.it2.Ok()
   ok3 := obj.it3.Ok()
@@ -850,6 +859,8 @@ func (obj *SparseFloat32VectorJoint3Iterator) Next() {
       obj.s3 = obj.it3.GetConst()
     }
   }
+  // true if at least one iterator is advanced below
+  advanced := obj.s1.ptr != nil || obj.s2 != nil || obj.s3 != nil
   if obj.s1.ptr != nil {
     obj.it1.Next()
   }
@@ -862,6 +873,11 @@ func (obj *SparseFloat32VectorJoint3Iterator) Next() {
     obj.it3.Next()
   } else {
     obj.s3 = ConstFloat32(0.0)
+  }
+  // skip positions where all elements are zero, stop only when
+  // all iterators are exhausted
+  if !obj.Ok() && advanced {
+    goto next
   }
 }
 func (obj *SparseFloat32VectorJoint3Iterator) Get() (Scalar, ConstScalar, ConstScalar) {
